@@ -63,7 +63,7 @@ def gen(rng, i, ctx):
     labels = [int(x) for x in rng.integers(0, C - 1, size=L)]
     path = genlib.path_for_labels(rng, labels, C - 1)
     if cls == 'transformer':
-        lg = rng.normal(size=(L, C)) * float(rng.choice([1, 5]))
+        lg = rng.normal(size=(L, C)) * float(rng.choice([1, 5, 200, 1000]))      # also raw scores of large magnitude
         lg[lg == 0] = 0.1
         return {'cls': cls, 'logits': lg, 'labels': labels}
     mode = {'dense': 'noisy', 'dense_peaky': 'peaky', 'sparse_floor': 'noisy', 'onehot': 'onehot', 'threshold': 'noisy', 'alto_wc': str(rng.choice(['peaky', 'noisy', 'onehot'])), 'tiny_logits': 'onehot', 'long_line': str(rng.choice(['peaky', 'noisy', 'onehot']))}[cls]
